@@ -237,10 +237,14 @@ func (q *TransmitLimitedQueue) deleteItem(cur *limitedBroadcast) {
 	if cur.name != "" {
 		delete(q.tm, cur.name)
 	}
+}
 
-	if q.tq.Len() == 0 {
-		// At idle there's no reason to let the id generator keep going
-		// indefinitely.
+// resetIDGenIfIdle restarts the id generator once the queue is empty: at idle
+// there's no reason to let it keep going indefinitely. It must not be called
+// while items are held out of the tree for reinsertion, or their ids could be
+// handed out a second time. You must already hold the mutex.
+func (q *TransmitLimitedQueue) resetIDGenIfIdle() {
+	if q.lenLocked() == 0 {
 		q.idGen = 0
 	}
 }
@@ -357,6 +361,7 @@ func (q *TransmitLimitedQueue) GetBroadcasts(overhead, limit int) [][]byte {
 	for _, cur := range reinsert {
 		q.addItem(cur)
 	}
+	q.resetIDGenIfIdle()
 
 	return toSend
 }
@@ -413,4 +418,5 @@ func (q *TransmitLimitedQueue) Prune(maxRetain int) {
 		cur.b.Finished()
 		q.deleteItem(cur)
 	}
+	q.resetIDGenIfIdle()
 }
